@@ -499,17 +499,55 @@ def stream_ids(ctx, rng, n):
             ctx.disagree("id_to_month", case, mo, im)
 
 
-def stream_resolution(ctx, rng, n):
-    items, impl, meta = [], [], []
-    for i in range(n):
+MONTH_KIND = ["month", "months", "Month", "MONTHS", "3-monthly", "yearmonth"]
+QUARTER_KIND = ["quarter", "quarters", "Quarter", "per quarter"]
+YEAR_KIND = ["year", "years", "YEAR", "half-year"]
+DAY_KIND = ["day", "days", "Day", "weekday", "calendar days"]
+WEEK_KIND = ["week", "weeks", "WEEK", "biweekly"]
+
+
+def month_edge_days(y, m):
+    """27..last day and 1, 2 of a month: the neighbourhood of month ends (incl. 28/29 February)"""
+    last = calendar.monthrange(y, m)[1]
+    return [D(y, m, dd) for dd in (1, 2, 27, 28, 29, 30, 31) if dd <= last]
+
+
+def resolution_cases(ctx, rng, n):
+    """(date, quantity, units, negative).  Random part + deterministic edges: every 28/29 February
+    1970-2100 x every unit spelling x both signs x several quantities; every month end 1970-2100 and the
+    days around it (27-31, 1-2) x one spelling of each unit kind x both signs.  thorough: every date."""
+    for _ in range(n):
         pre = rng.random() < 0.2
         lo = ORD_1900 if pre else ORD_1970
-        u = rng.random()
-        d = D.fromordinal(rand_date(rng, lo, ORD_2100)) if u < 0.5 else month_end_of_id(
+        d = D.fromordinal(rand_date(rng, lo, ORD_2100)) if rng.random() < 0.5 else month_end_of_id(
             rng.randrange(PRE_IDLO if pre else IDLO, IDHI + 1))
-        units = rng.choice(RES_UNITS)
         q = rng.choice([0, 1, 1, 2, 3, 4, 6, 12, 13, 24, 37, 120, rng.randrange(0, 200)])
-        neg = rng.random() < 0.5
+        yield "random", d, q, rng.choice(RES_UNITS), rng.random() < 0.5
+    for y in range(1970, 2101):
+        for d in [D(y, 2, 28)] + ([D(y, 2, 29)] if calendar.isleap(y) else []):
+            for units in RES_UNITS:
+                for q in (1, rng.choice([2, 3, 5, 12, 13, 24]), rng.randrange(1, 60)):
+                    for neg in (False, True):
+                        yield "feb28-29", d, q, units, neg
+    if ctx.thorough:
+        dates = (D.fromordinal(o) for o in range(ORD_1970, ORD_2100 + 1))
+        label = "every date 1970-2100"
+    else:
+        dates = (d for y in range(1970, 2101) for m in range(1, 13) for d in month_edge_days(y, m))
+        label = "month ends +-days 1970-2100"
+    pre_dates = [d for y in range(1900, 1970) for m in range(1, 13, 1 if ctx.thorough else 5) for d in month_edge_days(y, m)]
+    for lab, ds in ((label, dates), ("month ends +-days 1900-1969", pre_dates)):
+        for d in ds:
+            for kind in (MONTH_KIND, QUARTER_KIND, YEAR_KIND, rng.choice([DAY_KIND, WEEK_KIND])):
+                q = rng.choice([1, 1, 2, 3, 4, 6, 11, 12, 13, rng.randrange(1, 48)])
+                for neg in (False, True):
+                    yield lab, d, q, rng.choice(kind), neg
+
+
+def stream_resolution(ctx, rng, n):
+    items, impl, meta = [], [], []
+    first = True
+    for label, d, q, units, neg in resolution_cases(ctx, rng, n):
         st, std = call(du.standardize_resolution, (q, units))
         res, same = None, None
         if st == "ok":
@@ -533,9 +571,16 @@ def stream_resolution(ctx, rng, n):
         impl.append(res)
         meta.append((st, std, same, mid(d)))
         ctx.case(digest=f"res/{d.toordinal()}/{q}/{units}/{neg}",
-                 sample={"op": "resolution_delta", "d": w_date(d), "resolution": [q, units], "negative": neg} if i < 1 else None)
-        ctx.count(f"resolution/units={units!r}")
-    out = common.Driver(DRV).run([{"op": "resolution", "items": items, "impl": impl}])[0]
+                 sample={"op": "resolution_delta", "d": w_date(d), "resolution": [q, units], "negative": neg} if first else None)
+        first = False
+        ctx.count(f"resolution/{label}")
+        if label == "random":
+            ctx.count(f"resolution/units={units!r}")
+    drv = common.Driver(DRV)
+    outs = drv.run([{"op": "resolution", "items": items[i:i + 20000], "impl": impl[i:i + 20000]}
+                    for i in range(0, len(items), 20000)])
+    out = {"model": [m for o in outs for m in o["model"]], "spec": [x for o in outs for x in o["spec"]]}
+    n_fail = 0
     for it, im, (st, std, same, i0), mo, sp in zip(items, impl, meta, out["model"], out["spec"]):
         case = {"call": "resolution_delta(d, standardize_resolution((q, units)), negative)", "d": it[:3],
                 "resolution": it[3:5], "negative": it[5]}
@@ -556,8 +601,10 @@ def stream_resolution(ctx, rng, n):
             if mu == "month" and i0 + k < 0 and same is not False and not is_month_end(D(*it[:3])):
                 known_once(ctx, case)
             else:
-                ctx.fail("resolution_delta does not agree with add_months (month units) / day arithmetic (day, week units)",
-                         case, {"impl": im, "model": mo["res"], "agrees_with_add_months_or_timedelta": same})
+                n_fail += 1
+                if n_fail <= 40:
+                    ctx.fail("resolution_delta does not agree with add_months (month units) / day arithmetic (day, week units)",
+                             case, {"impl": im, "model": mo["res"], "agrees_with_add_months_or_timedelta": same})
         elif im != mo["res"]:
             ctx.disagree("resolution_delta", case, mo["res"], im)
 
@@ -649,7 +696,9 @@ if __name__ == "__main__":
              "statement recomputed from add_months; mismatches expanded to (date,k)); 200k random pairs (p,e) for the "
              "inverse law (uniform / month ends / near / adjacent / February and year edges), 40k pairs touching 1900-1969, "
              "sampled start dates in 1900-1969 and offsets into 1900-1969; 4k dev_lag unit dispatches (Cell.dev_lag and "
-             "calculate_dev_lag), all month ids with both flags, 6k resolution deltas over all unit spellings. thorough: "
+             "calculate_dev_lag), all month ids with both flags; resolution_delta vs add_months / day arithmetic / model: 6k random, every 28 and 29 "
+             "February 1970-2100 x every unit spelling x both signs x 3 quantities, every month end 1970-2100 and the days "
+             "around it (27-31, 1-2) x month/quarter/year/day-or-week spelling x both signs (thorough: every date). thorough: "
              "EVERY date 1970-01-01..2100-12-31 x every k, every date 1900-1969 x every k, 1M + 400k pairs, sampled p x "
              "every e in all sliding 3-year windows 1900-2100. distinct = distinct (date) / (p,e) / (input tuple); "
              "evaluations counts single add_months / dev_lag / id calls",
